@@ -53,17 +53,115 @@ theorem setMany_frame (strict : Bool) : ∀ (kvs : List (Path × Ref)) (h : Heap
         (fun kv hkv => hd kv (by simp [hkv])) hs x
     · cases hs
 
+/-- Along the sequence of sets, no path has to index **into** an ndarray when it is read back right after
+its own step (`NoNd` on the tree that step returned).  Trivially true of array-free data; for paths that do
+index into arrays the law is by value (`C18_nd_*`). -/
+def NoNdSeq (strict : Bool) : Heap → Ref → List (Path × Ref) → Prop
+  | _, _, [] => True
+  | h, t, (p, v) :: kvs =>
+    ∀ h1 d, setPath strict false h t p v = (h1, .ok d) → NoNd h1 d p ∧ NoNdSeq strict h1 d kvs
+
+/-- When the path can be read (by reference) in the tree **before** the set, reading it back in the tree
+the set returned never indexes into an ndarray: the input-side sufficient condition for `NoNd`. -/
+theorem setPath_noNd_of_get (strict : Bool) : ∀ (p : Path) (h : Heap) (t v : Ref) (h' : Heap) (t' : Ref)
+    (A : Ref → Prop), PlainSelf p → Region A h → A t → (∃ x, get h t p = .ok x) →
+    setPath strict false h t p v = (h', .ok t') →
+    ∀ h'' : Heap, (∀ r, h.size ≤ r → r < h'.size → h''[r]? = h'[r]?) → NoNd h'' t' p := by
+  intro p
+  induction p with
+  | nil => intro h t v h' t' A _ _ _ _ _ h'' _; simp [NoNd]
+  | cons k rest ih =>
+    intro h t v h' t' A hp hA hAt hg hs h'' hag
+    by_cases hself : k = .self
+    · subst hself; simp [NoNd]
+    have hk : k.isPlain = true ∧ PlainSelf rest := by
+      cases k <;> simp_all [PlainSelf]
+    have hk1 := PKey.isPlain_ne_self hk.1
+    have hk2 := PKey.isPlain_ne_skip hk.1
+    obtain ⟨x, hg⟩ := hg
+    have htlt := hA.lt t hAt
+    obtain ⟨n, hn⟩ : ∃ n, h[t]? = some n := ⟨h[t], by simp [htlt]⟩
+    rw [get_cons _ (Or.inl hk.1), index_of_get hn] at hg
+    cases hsl : n.slotGet k with
+    | error e => rw [hsl] at hg; cases hg
+    | ok child =>
+      rw [hsl] at hg
+      simp only at hg
+      have hnull : n ≠ .null := by intro e; subst e; simp [Node.slotGet] at hsl
+      obtain ⟨hm, child', hc, c, n', hext, hlt, hslot, hrec, hput, hcell, htq, hmc, hch', hsame⟩ :=
+        setPath_step hk1 hk2 hn hnull (Node.slotGet_not_nd hsl) hs
+      have hchild : child' = child := by
+        rcases hslot with h1 | ⟨h1, _, _⟩
+        · rw [hsl] at h1; cases h1; rfl
+        · exact absurd hsl (h1 child)
+      subst hchild
+      have ht' : t' < h'.size := lt_size_of_get hcell
+      have hcell'' : h''[t']? = some n' := by
+        have : h.size ≤ t' := by rcases htq with e | e <;> rw [e] <;> omega
+        rw [hag t' this ht']; exact hcell
+      have hAc : A child' := hA.closed t n hAt hn child' (Node.slotGet_mem hsl)
+      have hAm : Region A hm :=
+        ⟨fun r hr => Nat.lt_of_lt_of_le (hA.lt r hr) hext.1,
+         fun r n' hr hn' => by
+           rw [hext.2 r (hA.lt r hr)] at hn'
+           exact hA.closed r n' hr hn'⟩
+      have hgm : get hm child' rest = .ok x := by
+        rw [get_agree hA (fun r hr => hext.2 r (hA.lt r hr)) rest hAc]; exact hg
+      have hrest : NoNd h'' c rest := by
+        apply ih hm child' v hc c A hk.2 hAm hAc ⟨x, hgm⟩ hrec h''
+        intro r hr1 hr2
+        rw [hag r (by omega) (by omega), hsame r hr2 (by omega)]
+      have hget' : n'.slotGet k = .ok c := Node.slotGet_slotPut_same hput
+      rw [NoNd_cons hk1]
+      refine ⟨?_, ?_⟩
+      · intro b o s e
+        rw [hcell''] at e; cases e
+        simp [Node.slotGet] at hget'
+      · intro c2 hc2
+        rw [index_of_get hcell'', hget'] at hc2
+        cases hc2; exact hrest
+
+/-- **Sufficient condition for `NoNdSeq`**: every path of the sequence can be read (by reference) in the
+tree before the sequence, and the paths pairwise leave each other. -/
+theorem NoNdSeq_of_gets (strict : Bool) : ∀ (kvs : List (Path × Ref)) (h : Heap) (t : Ref),
+    Closed h → t < h.size → (∀ kv ∈ kvs, kv.2 < h.size) → (∀ kv ∈ kvs, PlainSelf kv.1) →
+    kvs.Pairwise (fun a b => Diverge a.1 b.1) → (∀ kv ∈ kvs, ∃ x, get h t kv.1 = .ok x) →
+    NoNdSeq strict h t kvs := by
+  intro kvs
+  induction kvs with
+  | nil => intro h t _ _ _ _ _ _; simp [NoNdSeq]
+  | cons kv0 kvs ih =>
+    intro h t hc ht hv hp hpw hg
+    obtain ⟨p, v⟩ := kv0
+    simp only [NoNdSeq]
+    intro h1 d he
+    rw [List.pairwise_cons] at hpw
+    obtain ⟨h1c, h1s, h1l⟩ := setPath_closed strict false p h t v hc ht (hv (p, v) (by simp))
+    rw [he] at h1c h1s h1l
+    simp only at h1c h1s h1l
+    have hext : Extends h h1 := by have := setPath_extends strict h t p v; rw [he] at this; exact this
+    refine ⟨setPath_noNd_of_get strict p h t v h1 d (· < h.size) (hp (p, v) (by simp)) hc.region ht
+      (hg (p, v) (by simp)) he h1 (fun _ _ _ => rfl), ?_⟩
+    apply ih h1 d h1c (h1l d rfl)
+      (fun kv hkv => Nat.lt_of_lt_of_le (hv kv (by simp [hkv])) h1s)
+      (fun kv hkv => hp kv (by simp [hkv])) hpw.2
+    intro kv hkv
+    obtain ⟨x, hx⟩ := hg kv (by simp [hkv])
+    refine ⟨x, ?_⟩
+    exact (setPath_frame strict (hpw.1 kv hkv) h t v h1 d (· < h.size) h1 he hc.region ht
+      (fun r hr => hext.2 r hr) (fun _ _ _ => rfl) x).mpr hx
+
 /-- Get-after-set for a whole sequence: when the set paths pairwise leave each other (later vs earlier),
 every path reads the value it was set to. -/
 theorem setMany_get (strict : Bool) : ∀ (kvs : List (Path × Ref)) (h : Heap) (t : Ref) (h' : Heap) (t' : Ref),
     Closed h → t < h.size → (∀ kv ∈ kvs, kv.2 < h.size) → (∀ kv ∈ kvs, PlainSelf kv.1) →
-    kvs.Pairwise (fun a b => Diverge b.1 a.1) →
+    kvs.Pairwise (fun a b => Diverge b.1 a.1) → NoNdSeq strict h t kvs →
     setMany strict false h t kvs = (h', .ok t') → ∀ kv ∈ kvs, get h' t' kv.1 = .ok kv.2 := by
   intro kvs
   induction kvs with
-  | nil => intro h t h' t' _ _ _ _ _ _ kv hkv; cases hkv
+  | nil => intro h t h' t' _ _ _ _ _ _ _ kv hkv; cases hkv
   | cons kv0 kvs ih =>
-    intro h t h' t' hc ht hv hp hpw hs kv hkv
+    intro h t h' t' hc ht hv hp hpw hnd hs kv hkv
     obtain ⟨p, v⟩ := kv0
     simp only [setMany] at hs
     split at hs
@@ -77,8 +175,9 @@ theorem setMany_get (strict : Bool) : ∀ (kvs : List (Path × Ref)) (h : Heap) 
       rcases List.mem_cons.mp hkv with e | e
       · subst e
         have hgs := setPath_get_set strict p h t v h1 d (hp (p, v) (by simp)) he h1 (fun _ _ _ => rfl)
+          (hnd h1 d he).1
         exact (setMany_frame strict kvs h1 d h' t' p h1c (h1l d rfl) hv1 (fun kv hkv => hpw.1 kv hkv) hs v).mpr hgs
-      · exact ih h1 d h' t' h1c (h1l d rfl) hv1 (fun kv hkv => hp kv (by simp [hkv])) hpw.2 hs kv e
+      · exact ih h1 d h' t' h1c (h1l d rfl) hv1 (fun kv hkv => hp kv (by simp [hkv])) hpw.2 (hnd h1 d he).2 hs kv e
     · cases hs
 
 end MlModel.Tree
